@@ -65,7 +65,15 @@ TInit     == Ev("init") /\ UNCHANGED vars /\ T.res = "ok" /\ T.nn = nn /\ T.cc =
 TParse    == Ev("parse")    /\ Parse(T.b)   /\ Outs /\ Proj
 TBuild    == Ev("build")    /\ Build(T.b)   /\ T.p = pref /\ Outs /\ Proj
 TVerify   == Ev("verify")   /\ Verify(T.b)  /\ Outs /\ Proj
-TAccept   == Ev("accept")   /\ Accept(T.b)  /\ Outs /\ Proj
+(* Lookups made from a second goroutine while Accept is inside the chain index write must see the state before *)
+(* or after the accept, never something else: a verified block stays retrievable at every instant until it is  *)
+(* rejected, LastAccepted is the old or the new block.                                                         *)
+FoundSet == {b \in IDs : Found(b)}
+MidOK == /\ \A i \in DOMAIN T.midfound : Set(T.midfound[i]) \in {FoundSet, FoundSet'}
+         /\ \A i \in DOMAIN T.midla : T.midla[i] \in {lastAcc, lastAcc'}
+TAccept   == Ev("accept")   /\ Accept(T.b)  /\ Outs /\ Proj /\ MidOK
+(* the chain index refused the write once: the accept failed and left no trace *)
+TAcceptFail == Ev("acceptfail") /\ AcceptIndexFails(T.b) /\ Outs /\ Proj /\ MidOK
 TReject   == Ev("reject")   /\ Reject(T.b)  /\ Outs /\ Proj
 TSetPref  == Ev("setpref")  /\ SetPref(T.b) /\ Outs /\ Proj
 TDequeue  == Ev("dequeue")  /\ Dequeue /\ inflight' = <<T.b>> /\ Outs /\ Proj
@@ -76,10 +84,14 @@ TStart    == Ev("startsync") /\ StartSync(T.b) /\ Outs /\ Proj
 TopoOK(a) == /\ \A i, j \in DOMAIN a : (i < j /\ a[i].k = a[j].k /\ a[i].b # a[j].b) => ~Desc(a[j].b, a[i].b)
              /\ \A i, j \in DOMAIN a : (a[i].k = "cverify" /\ a[j].k = "caccept" /\ a[i].b = a[j].b) => i < j
 SameUpToOrder(a, b) == Len(a) = Len(b) /\ Set(a) = Set(b) /\ TopoOK(a)
-TFinish   == /\ Ev("finishsync") /\ FinishSyncWith(T.b, HeightOrder(vblocks), FixParentMissing)
+(* HealthCheck probed from a second goroutine at every Chain callback inside FinishStateSync: the hand-over takes   *)
+(* effect at one instant of the call, a probe sees the health before it or after it (and never goes back).           *)
+MidHealthOK == /\ \A i \in DOMAIN T.midh : T.midh[i] \in {Health, Health'}
+               /\ \A i, j \in DOMAIN T.midh : (i < j /\ T.midh[i] # Health) => T.midh[j] = Health'
+TFinish   == /\ Ev("finishsync") /\ FinishSyncWith(T.b, HeightOrder(vblocks), FixParentMissing) /\ MidHealthOK
              /\ T.res = res' /\ SameUpToOrder(T.cc, cc') /\ SameUpToOrder(T.nn, nn') /\ Proj
 
-TraceNext == TReset \/ TInit \/ TParse \/ TBuild \/ TVerify \/ TAccept \/ TReject \/ TSetPref
+TraceNext == TReset \/ TInit \/ TParse \/ TBuild \/ TVerify \/ TAccept \/ TAcceptFail \/ TReject \/ TSetPref
              \/ TDequeue \/ TProcess \/ TStart \/ TFinish
 TraceSpec == TraceInit /\ [][TraceNext]_tvars
 
